@@ -369,6 +369,13 @@ class Verdicts:
             else:
                 new.append((sc, detail))
         os.makedirs(EVID, exist_ok=True)
+        classes = {}
+        for sc, detail in new:
+            key = json.dumps(detail.get("sig", {}), sort_keys=True) if isinstance(detail, dict) else "?"
+            classes[key] = classes.get(key, 0) + 1
+        self.extra["new_violation_classes"] = classes
+        if classes:
+            log("[%s] violation classes: %s" % (self.pid, json.dumps(classes)[:1500]))
         ev = {
             "property_id": self.pid, "tier": self.tier, "seed": self.seed, "level": "model_checking",
             "coverage": dict({
